@@ -220,6 +220,25 @@ def run(rep):
         rep.ob("M5-or-variables-paired-with-fields-of-the-same-ordering", "instantiate_matched_or_variant_vars_expressions", not stale, TMB, stale[0][1] if stale else vf["l"],
                f"`{stale[0][0] if stale else ''}` is read from `{src_var}` before the alternatives' variables are re-ordered in place and used afterwards: names and tuple "
                "fields are paired by position, so a name list taken in the old order binds variables to each other's values")
+    # a name suffix taken from the length of the shared list of or-pattern index variables identifies *this* or-pattern only if no
+    # nested or-pattern is desugared (the list handed to a recursive call) between taking the length and using the suffix
+    cn = fn_named(tb, "instantiate_child_nodes_conditions_and_declarations")
+    snap = [(l_, names_[0], re.search(r"(\w+)\.len\(\)", tab.show(i_)).group(1)) for l_, names_, _, i_ in tab.lets(cn["body"])
+            if names_ and i_ is not None and re.search(r"(\w+)\.len\(\)", tab.show(i_))]
+    n_snap = 0
+    for l_, nm, coll in snap:
+        uses = [x["l"] for x in tab.walk(cn["body"]) if x.get("k") == "Path" and x["path"] == nm and x["l"] > l_]
+        if not uses:
+            continue
+        n_snap += 1
+        last = max(uses)
+        handoffs = [c_ for c_ in tab.walk(cn["body"]) if c_.get("k") in ("Call", "MethodCall") and l_ < c_["l"] <= last and
+                    any(tab.show(a_).replace("&mut ", "").replace("&", "") == coll for a_ in c_.get("args", []))]
+        rep.ob("M5-or-index-suffix-taken-after-nested-patterns", f"{nm} = {coll}.len()", not handoffs, TMB, handoffs[0]["l"] if handoffs else l_,
+               f"`{nm}` is computed from `{coll}.len()` and used after `{coll}` was handed to another call (a nested or-pattern registers its own index variable there): "
+               "the outer and the nested or-pattern get the same suffix, the outer `__matched_or_variant_index_N` shadows the inner one and the inner variables are "
+               "taken from the wrong alternative")
+    rep.floor("M5-or-index-suffix-taken-after-nested-patterns", 1, n_snap)
     bce = fn_named(tb, "build_condition_expression")
     b = tab.show(bce["body"])
     rep.ob("M5-conditions-joined-in-order", "build_condition_expression", "operator(lhs.clone(),build_condition_expression(others,operator))" in b and "split_first()" in b, TMB, bce["l"],
